@@ -122,10 +122,13 @@ def mutate (s : DState) (c : Chain) (ws : List String) (budget : Option Nat) : O
     some (afterRun s (toString r) run)
   | ["rmto", h], none => do
     let h ← parseNat? h
+    -- after a count underflow (crash-desynchronised store only) the loop would run ~2^64 times
+    if c.count ≥ 4294967296 then pure (s, "unmodelled") else
     let c' := rmTo c h
     pure ({ s with boot := some (.alive c') }, "done " ++ status c')
   | ["rmto", h], some k => do
     let h ← parseNat? h
+    if c.count ≥ 4294967296 then pure (s, "unmodelled") else
     pure (afterRun s "done" (rmToB c h k))
   | _, _ => none
 
